@@ -14,7 +14,7 @@ func TestMain(m *testing.M) {
 	core.Main(m, "C05", "cases = handler table (query text -> parser error | 0 | 1 | 2..5 statements; statement = 0..6 columns + up to 10 result-writer operations incl. wrong-arity/unencodable rows, Written() probes, Empty, Complete, operations after completion, early returns with/without error) x 1..8 Query messages (table keys and blank queries), each sent alone and compared with the reference model; non-trivial = a query with >= 2 statements, or an error after >= 1 row, or a failed row, or an operation after completion; distinct = distinct canonical JSON")
 }
 
-var blanks = []string{"", " ", "\t", "\n", " \t\n ", "\r\n", "   "}
+var blanks = []string{"", " ", "\t", "\n", " \t\n ", "\r\n", "   ", "\f", " \f\n", "\n\f\n"} // (space, tab, newline, carriage return, form feed: blank for the SQL lexer and for Go alike)
 
 func genCase(t *rapid.T) Case {
 	c := Case{}
